@@ -9,6 +9,8 @@ THEOREMS = [P + t for t in [
     "self_scheduled_wait_stays_live_without_resume_bump", "nested_listener_survives_when_did_resume_late",
     "abandoned_x_procwait_cancels_when_err_branch_unchecked", "stale_thread_completion_inert",
     "abandoned_threaded_await_resumes_when_unchecked",
+    "callback_tables_closed", "mark_visit_resumes_nobody", "deinit_resumes_nobody", "listener_callback_wakes_only_its_fiber",
+    "every_wake_site_classified", "every_site_class_covered",
     "select_give_on_stale_readers_registers_when_unchecked", "stale_writer_resumed_when_unchecked", "stale_reader_resumed_by_close_when_unchecked",
 ]]
 HAVE_DRIVER = True
